@@ -363,11 +363,17 @@ impl Hist {
     pub fn dump(&mut self) -> Vec<String> {
         let mut out = Vec::new();
         for r in 0..self.slots.len() {
+            if self.slots[r].fut.is_some() {
+                // a sync is in flight: its transaction is open, the replica cannot be read
+                out.push(format!("rep {} busy", r));
+                continue;
+            }
             let tasks: HashMap<Uuid, TaskMap> = block_on(self.rep(r).all_task_data())
                 .unwrap()
                 .into_iter()
                 .map(|(u, td)| (u, td.iter().map(|(k, v)| (k.clone(), v.clone())).collect()))
                 .collect();
+            self.slots[r].obs.lock().unwrap().probe = true;
             let nops = block_on(self.rep(r).num_local_operations()).unwrap();
             let base = self.slots[r].obs.lock().unwrap().base;
             out.push(format!(
@@ -379,6 +385,10 @@ impl Hist {
             ));
         }
         for r in 0..self.slots.len() {
+            if self.slots[r].fut.is_some() {
+                out.push(format!("pend {} busy", r));
+                continue;
+            }
             let ops: Vec<String> = self.slots[r]
                 .obs
                 .lock()
@@ -408,6 +418,9 @@ impl Hist {
 
     /// execute one protocol line; returns (the line as it goes to ops.txt, output lines)
     pub fn exec(&mut self, line: &str) -> (String, Vec<String>) {
+        if std::env::var("TCH_TRACE").is_ok() {
+            eprintln!("exec {}", line);
+        }
         let toks: Vec<&str> = line.split_whitespace().collect();
         let bad = || (line.to_string(), vec!["bad-op".to_string()]);
         match toks.as_slice() {
@@ -659,6 +672,7 @@ pub fn gen_case(rng: &mut Rng, cfg: &GenCfg) -> (usize, u64, Vec<String>) {
                 let kind = *rng.pick(&["before", "after", "storage", "storage", "storage-error"]);
                 let idx = if kind.starts_with("storage") { 1 + rng.below(40) } else { 1 + rng.below(6) };
                 lines.push(format!("F {} {} {} 0 {} {}", r, avoid, urg, kind, idx));
+                lines.push("Q".to_string());
             } else {
                 lines.push(format!("S {} {} {}", r, avoid, urg));
             }
